@@ -174,9 +174,8 @@ def check_config(c):
         res.check(all(G.dtype == np.float64 for G in Yu) and all(G.dtype == np.float64 for G in Yc), 'dtype', case,
                   lambda: 'cores are not float64: %s / %s' % ([str(G.dtype) for G in Yu], [str(G.dtype) for G in Yc]), tags)
         # a budget that ends the cached run: the dictionary still holds exactly what was evaluated, info['m'] counts it
-        if not vld and iu.get('m', 0) > 4:
+        for mb in (sorted({ic['m'] // 2, ic['m'] - 1, max(1, ic['m'] // 3)}) if (not vld and ic.get('m', 0) > 3) else []):
             res.ev()
-            mb = iu['m'] // 2
             Yb, ib, fb, cab, _, _ = run(c, seed, T, NS, True, False, m=mb)
             evb = [tuple(int(x) for x in row) for b in fb.batches for row in b]
             res.check(ib.get('m') == len(evb) and len(evb) <= mb and set(cab.keys()) == set(evb), 'budget.cache', dict(case, m=mb),
